@@ -7,7 +7,9 @@ import (
 	"net/netip"
 	"runtime"
 	"sort"
+	"strings"
 	"sync/atomic"
+	"time"
 
 	"github.com/libp2p/go-libp2p/core/network"
 	"github.com/libp2p/go-libp2p/core/peer"
@@ -351,11 +353,37 @@ type limiter struct {
 	// manager consults the limiter when it creates a scope on first use; a lookup that takes
 	// its time stretches that moment for the concurrent property.
 	yields atomic.Int32
+	// napEvery > 0: every napEvery-th lookup of a per-peer sub-scope limit (made while the manager
+	// holds that protocol's or service's lock, and no other) takes napMicros of real time. Only the
+	// concurrent property, which runs in real time, sets it.
+	napEvery, napMicros atomic.Int32
+	subLookups          atomic.Int64
+	// gate: the first lookup of a per-peer sub-scope limit after it was installed announces itself and
+	// then waits to be released (at most 200 ms): a harness-owned schedule point inside the manager
+	gate atomic.Pointer[limGate]
+}
+
+type limGate struct {
+	taken   atomic.Bool
+	name    string // which lookup was held (valid once entered is closed)
+	entered chan struct{}
+	release chan struct{}
 }
 
 func (l *limiter) bl(name string) rcmgr.Limit {
 	for i := l.yields.Load(); i > 0; i-- {
 		runtime.Gosched()
+	}
+	if g := l.gate.Load(); g != nil && strings.Contains(name, ".peer:") && g.taken.CompareAndSwap(false, true) {
+		g.name = name
+		close(g.entered)
+		select {
+		case <-g.release:
+		case <-time.After(200 * time.Millisecond):
+		}
+	}
+	if e := l.napEvery.Load(); e > 0 && strings.Contains(name, ".peer:") && l.subLookups.Add(1)%int64(e) == 0 {
+		time.Sleep(time.Duration(l.napMicros.Load()) * time.Microsecond)
 	}
 	x := l.c.limitOf(name)
 	return &x
